@@ -27,6 +27,9 @@ EXC_PARENTS = {
 def exc_matches(cls, handler_names):
     if handler_names is None:
         return True
+    if cls == "*":
+        # an unknown exception class: may or may not match -- callers fork
+        return None
     fam = [cls] + EXC_PARENTS.get(cls, ["Exception"])
     return any(h in fam or h == "BaseException" for h in handler_names)
 
@@ -181,6 +184,8 @@ class ExprMixin:
                         "VALUE_SAME_CHECK", "_key_type", "_value_type"):
                 return [(s, self.class_attr(s, obj, name))]
             return [(s, SV("bmeth", None, (obj, name)))]
+        if obj.kind == "cls" and name in ("max_leaf_size", "max_internal_size"):
+            return [(s, mk_int(z3.Int("C_" + name)))]
         if obj.kind in ("list", "tuple", "cls", "func"):
             return [(s, SV("bmeth", None, (obj, name)))]
         raise Unsupported("attribute %s on %s" % (name, obj.kind))
